@@ -488,13 +488,21 @@ def reshape(node: ir.Node, op, state: OptimizerState) -> ReturnValue:
     input_shape = input.shape
     shape_value = state.get_shape_value(shape)
 
+    def propagate() -> ReturnValue:
+        # A recorded shape value describes a 1-D (or 0-D) tensor. Forward it only when the
+        # result of this Reshape is known to be 1-D or 0-D as well: indexing a reshaped
+        # (e.g. [1, n]) tensor with Gather/Concat means something else.
+        if shape_value is not None and len(shape_value) <= 1:
+            return _propagate_shape_value(node, op, state)
+        return None
+
     if shape_value is None or input_shape is None:
-        return _propagate_shape_value(node, op, state)
+        return propagate()
 
     # No need to check for special values like -1, 0, etc. here
     if _same_shape(input_shape, shape_value):
         return op.Identity(input)
-    return _propagate_shape_value(node, op, state)
+    return propagate()
 
 
 @register("Squeeze")
